@@ -138,13 +138,14 @@ def current_branch(src_dir):
 def branches(src_dir, remote=True):
     clean_src = io.escape_path(src_dir)
     if remote:
-        # alternatively: git for-each-ref refs/remotes/ --format='%(refname:short)'
+        # "%(refname:short)" is the shortest *unambiguous* name: a branch is listed as e.g. "heads/7.1" if there is also a tag "7.1".
+        # We want the plain name, i.e. the ref name without "refs/remotes/" or "refs/heads/".
         return _cleanup_remote_branch_names(
-            process.run_subprocess_with_output(f"git -C {clean_src} for-each-ref refs/remotes/ --format='%(refname:short)'")
+            process.run_subprocess_with_output(f"git -C {clean_src} for-each-ref refs/remotes/ --format='%(refname:lstrip=2)'")
         )
     else:
         return _cleanup_local_branch_names(
-            process.run_subprocess_with_output(f"git -C {clean_src} for-each-ref refs/heads/ --format='%(refname:short)'")
+            process.run_subprocess_with_output(f"git -C {clean_src} for-each-ref refs/heads/ --format='%(refname:lstrip=2)'")
         )
 
 
